@@ -33,7 +33,10 @@ def model (textB jsonB : HHmmBounds) : List String → Option String
     | "version-json" => some (match versionFromJSON s with | some n => s!"ok {n}" | none => "err")
     | "systime-parse" => some (match parseSystemTime s with | some t => s!"ok {t.h}-{t.m}-{t.s}" | none => "err")
     | "cardformat-parse" => some (match cardFormatFromString s with | some n => s!"ok {n}" | none => "err")
+    | "weekdays-json" => some ("ok " ++ String.join ((weekdaysFromJSON s).map fun b => if b then "1" else "0"))
     | _ => none
+  | ["fmt", "weekdays-json", bits] => some ("text " ++ hexOf (weekdaysJSON (bits.toList.map (· == '1'))))
+  | ["fmt", "weekdays-string", bits] => some ("text " ++ hexOf (weekdaysString (bits.toList.map (· == '1'))))
   | ["fmt", kind, v] => do
     let v ← parseVal v
     let t : Option (List Char) := match kind, v with
@@ -74,6 +77,11 @@ def canonicalOf (kind : String) (s : List Char) : Option String :=
   | "cs-json" => (controlStateFromJSON s).map fun n => s!"ok {n}"
   | "version-json" => (versionFromJSON s).bind fun n => if s = versionJSON n then some s!"ok {n}" else none
   | "systime-parse" => (parseSystemTime s).bind fun t => if s = systemTimeString t then some s!"ok {t.h}-{t.m}-{t.s}" else none
+  | "weekdays-json" =>
+    -- canonical: the names of a set of days, Monday first, comma-joined
+    let names := (splitComma s).map String.ofList
+    let flags := dayNames.map fun n => names.contains n
+    if s = weekdaysJSON flags then some ("ok " ++ String.join (flags.map fun b => if b then "1" else "0")) else none
   | _ => none
 
 def spec : List String → List String → Option String
@@ -110,6 +118,10 @@ def spec : List String → List String → Option String
             (match (v.splitOn "-").mapM String.toNat? with
              | some [hh, mm, ss] => g.take 3 = [hh, mm, ss] && hh < 24 && mm < 60 && ss < 60
              | _ => false)
+          | "weekdays-json" =>
+            -- non-canonical text: a day may be set only if its name is one of the comma-separated tokens
+            let toks := (splitComma s).map fun t => t.map lower
+            v.length = 7 && ((dayNames.zip v.toList).all fun p => p.2 = '0' || toks.contains (p.1.toList.map lower))
           | "cardformat-parse" =>
             (match v.toNat? with
              | some 0 => hasFactor "any".toList (s.map lower)
@@ -118,6 +130,9 @@ def spec : List String → List String → Option String
           | _ => false
         some (Driver.verdict okv "text outside the domain is rejected, never turned into a different value")
       | _ => some "bad never a panic"
+  | ["fmt", "weekdays-json", bits], impl =>
+    some (Driver.expect ("text " ++ hexOf (joinComma ((dayNames.zip (bits.toList.map (· == '1'))).filterMap fun p => if p.2 then some p.1.toList else none))) impl)
+  | ["fmt", "weekdays-string", _], _ => some "unspecified"
   | ["fmt", kind, v], impl => do
     let v ← parseVal v
     match impl with
